@@ -170,6 +170,13 @@ def generate(run_seed, tier):
                 ops.append(['get_kt', o.choice([m for m in allm
                                                 if m not in kmols] or ['XeF6']),
                             o.random(), o.random()])
+        if o.random() < 0.05:
+            # a reader constructed by the caller on one container of the
+            # store, with its constructor options (streaming or in-memory
+            # HDF5, either interpolation mode), used without the cache
+            ops.append(['direct_object', o.randrange(8), o.randrange(64),
+                        o.choice(['linear', 'exp']), o.random() < 0.5,
+                        o.random(), o.random()])
         if o.random() < 0.06:
             ops.append([o.choice(['list_mols', 'list_mols', 'list_kt',
                                   'load_list'])] +
@@ -535,13 +542,29 @@ def execute(case, keep_text=False):
                               'gen': cands[0]['gen'], 'dir': ref['path']}
         return obj
 
+    def grid_choice(obj, u, v):
+        """The wavenumber argument of a request: none, the object's whole
+        grid, or a run of its own nodes (the ends are nodes exactly)."""
+        g = np.asarray(obj.wavenumberGrid, dtype=float)
+        kind = int(u * 1000) % 3
+        if kind == 0 or len(g) < 3:
+            return None, slice(None)
+        if kind == 1:
+            return g.copy(), slice(None)
+        i = int(v * 1000) % (len(g) - 2)
+        j = i + 2 + int(u * 7919) % (len(g) - i - 1)
+        out.bump('probes', 'request_on_node_subrange')
+        return g[i:j].copy(), slice(i, j)
+
     def do_probe(step, mol, u, v):
         obj = do_get(step, mol)
         if obj is None:
             return
         s = ref['served'][mol]
         T, P = interior_point(s['tab'], u, v)
-        raw = obj.opacity(T, P)
+        wsel, isel = grid_choice(obj, u, v)
+        raw = obj.opacity(T, P, wsel) if wsel is not None \
+            else obj.opacity(T, P)
         got = np.asarray(raw, dtype=float)
         for a_obj, a_copy, what in held:
             # what earlier requests returned must not change under the
@@ -554,9 +577,9 @@ def execute(case, keep_text=False):
         held.append((raw, np.array(got, copy=True), mol))
         del held[:-6]
         mode = s.get('mode', ref['interp'])
-        want = ref_interp(s['tab'], mode, T, P)
+        want = ref_interp(s['tab'], mode, T, P)[isel]
         other = ref_interp(s['tab'], 'exp' if mode == 'linear'
-                           else 'linear', T, P)
+                           else 'linear', T, P)[isel]
         if np.any(np.abs(want - other) > 1e-6 * np.abs(want)):
             out.bump('probes', 'mode_discriminating_probe')
         abs_ = 1e-59 if s['fmt'] == 'exo' else 0.0
@@ -670,6 +693,50 @@ def execute(case, keep_text=False):
                                                   'fmt': 'mem', 'gen': -1,
                                                   'dir': None}
                     OpacityCache().load_opacity(opacities=objs)
+                elif k == 'direct_object':
+                    i = op[1] % len(dirpaths)
+                    recs = [r_ for r_ in store[i] if not r_.get('corrupt')
+                            and not r_.get('removed')]
+                    if not recs:
+                        continue
+                    rec = recs[op[2] % len(recs)]
+                    pth = os.path.join(dirpaths[i], rec['file'])
+                    if not os.path.exists(pth):
+                        continue
+                    from taurex.opacity import PickleOpacity
+                    from taurex.opacity.hdf5opacity import HDF5Opacity
+                    from taurex.opacity.exotransmit import ExoTransmitOpacity
+                    tab = xtab(rec['mol'], rec['gen'])
+                    try:
+                        if rec['fmt'] == 'hdf5':
+                            dobj = HDF5Opacity(pth, interpolation_mode=op[3],
+                                               in_memory=op[4])
+                        elif rec['fmt'] == 'pickle':
+                            dobj = PickleOpacity(pth, interpolation_mode=op[3])
+                        else:
+                            dobj = ExoTransmitOpacity(
+                                pth, interpolation_mode=op[3])
+                        T, P = interior_point(tab, op[5], op[6])
+                        got = np.asarray(dobj.opacity(T, P), dtype=float)
+                    except Exception as e:    # noqa
+                        viol('load-failed', 'direct:' + rec['fmt'],
+                             '%s constructed directly (mode %s, in_memory=%s) '
+                             'raised %r' % (rec['file'], op[3], op[4], e),
+                             step)
+                        raise Stop()
+                    try:        # (a streaming reader keeps its file open)
+                        dobj._spec_dict.close()
+                    except Exception:
+                        pass
+                    want = ref_interp(tab, op[3], T, P)
+                    out.bump('probes', 'reader_constructed_directly')
+                    if not _close_arr(got, want, 1e-9,
+                                      1e-59 if rec['fmt'] == 'exo' else 0.0):
+                        viol('probe-mismatch', 'direct:' + rec['fmt'],
+                             '%s constructed directly: opacity at T=%r P=%r '
+                             'does not follow the table in mode %s'
+                             % (rec['file'], T, P, op[3]), step)
+                        raise Stop()
                 elif k == 'corrupt_file':
                     i = op[1] % len(dirpaths)
                     hit = False
@@ -973,13 +1040,17 @@ def execute(case, keep_text=False):
                         out.bump('steps', 'loads:' + fmt)
                     mode = ref['kt_served'][mol]['interp']
                     T, P = interior_point(t, op[2], op[3])
-                    got = np.asarray(obj.opacity(T, P), dtype=float)
+                    wsel, isel = grid_choice(obj, op[2], op[3])
+                    got = np.asarray(
+                        obj.opacity(T, P, wsel) if wsel is not None
+                        else obj.opacity(T, P), dtype=float)
                     karr = np.array(t['k'])
                     want = np.empty(karr.shape[2:])
                     for g in range(karr.shape[3]):
                         want[:, g] = ref_interp(
                             {'T': t['T'], 'P': t['P'], 'x': karr[..., g]},
                             mode, T, P)
+                    want = want[isel]
                     if not _close_arr(got, want, 1e-9):
                         viol('probe-mismatch', 'ktable', '%s (%s) at T=%r '
                              'P=%r does not follow mode %r'
